@@ -8,25 +8,64 @@ PROP = 'C12'
 LEAN_TARGETS = ['Props.C12']
 REQUIRED_THEOREMS = ['Props.C12.parameters_nodup', 'Props.C12.parameters_eq_dedup_flat', 'Props.C12.mem_parameters_iff',
                      'Props.C12.numParams_split', 'Props.C12.setAttr_replaces', 'Props.C12.setTraining_reaches',
-                     'Props.C12.sequential_order', 'Props.C12.zeroGrad_exact', 'Props.C12.setReqGrad_exact']
+                     'Props.C12.sequential_order', 'Props.C12.zeroGrad_exact', 'Props.C12.setReqGrad_exact',
+                     'Props.C12.applyOrder_setAttr_mod', 'Props.C12.applyOrder_setAttr_other', 'Props.C12.applyOrder_regMod']
 RULE = ('random module programs: create modules/parameters, assign attributes from a small name pool (so names are '
         're-assigned to another module / parameter / None / a plain value), explicit register_*, Sequential positional '
         'and OrderedDict, shared parameters and submodules (child created before parent), interleaved with '
         'train/eval/freeze/unfreeze/zero_grad on any node; after every mutation the parameter list, counts, all training '
-        'flags and all parameter flags are compared. Non-trivial: the program shares or re-assigns at least one name.')
+        'flags and all parameter flags are compared. Containers with MANY members (Sequentials of 4-14 members in the quick tier, '
+        '100+ in the thorough tier; positional, OrderedDict with numeric-looking keys in any order, nested), whose members do not '
+        'commute (x*a+b) and are replaced / removed / added by assignment and by register_module under numeric names: the order in '
+        'which forward CALLS the members is recorded and compared with the model after every such mutation, the value with the '
+        'composition. Deep chains whose ancestors have all been listed / counted / zeroed once before a nested attribute is '
+        'replaced. Non-trivial: the program shares or re-assigns at least one name.')
 EXHAUSTIVE = {'quick': False, 'thorough': False}
 ASSUMPTIONS = ['hierarchies are acyclic (a module is never made a descendant of itself)']
 TRUSTED_BASE = ['harness/props/c12.py (generator, canonicalisation)']
 NAMES = ['a', 'b', 'c', 'w', '_u', '_fc', 'A1']      # attribute names incl. underscore-prefixed and capitalised ones
+DNAMES = ['l0', 'l1', 'l2', 'a', 'b', '0', '1', '2', '9', '10', '11', '100', '02']      # OrderedDict keys incl. numeric-looking ones (a Sequential must not re-sort them)
 
 
-def gen_program(rng, nops):
+def seq_len(rng, tier):
+    """number of members of a generated Sequential: the registry of a container is an ordered mapping keyed by str(index), so the
+    lengths around every power of ten (where the string order of the keys departs from their numeric order) are drawn on purpose"""
+    r = rng.random()
+    if r < 0.55: return rng.randint(0, 3)
+    if r < 0.75: return rng.randint(4, 10)
+    if tier == 'quick' or r < 0.93: return rng.randint(11, 14)
+    return rng.pick([21, 99, 100, 101, 102, 111, 120])
+
+
+def seq_line(rng, ks, positional):
+    if positional:
+        return f'mod seq {show_ints(ks)}', [str(i) for i in range(len(ks))]
+    pool = DNAMES + [str(i) for i in range(12, 12 + max(0, len(ks) - len(DNAMES)))]
+    names = rng.sample(pool, len(ks))
+    return 'mod seqd ' + (','.join(f'{n}:{k}' for n, k in zip(names, ks)) if ks else '_'), names
+
+
+def gen_program(rng, nops, tier='quick'):
     ops, nm, npar = [], 0, 0
     shared = reassigned = False
     used = {}
+    seqs = {}          # Sequential id -> names ever registered on it
     for _ in range(nops):
         r = rng.random()
-        if nm == 0 or r < 0.12:
+        if seqs and rng.chance(.12):
+            # a member of a container replaced / removed / added: by assignment (drops the old registration, registers anew) or by
+            # register_module (an existing key keeps its slot), under an existing key, the next index, or any other name
+            q = rng.pick(sorted(seqs))
+            name = rng.pick(seqs[q]) if seqs[q] and rng.chance(.7) else rng.pick([str(len(seqs[q])), str(rng.randint(0, 15)), rng.pick(NAMES), rng.pick(DNAMES)])
+            how = rng.random()
+            if how < .55: ops.append(f'mod set {q} {name} m{rng.randrange(q)}')
+            elif how < .8: ops.append(f'mod regm {q} {name} {rng.randrange(q)}')
+            elif how < .9 and npar: ops.append(f'mod set {q} {name} p{rng.randrange(npar)}')
+            else: ops.append(f'mod set {q} {name} {rng.pick(["none", "other"])}')
+            if name not in seqs[q]: seqs[q].append(name)
+            reassigned = True
+            ops += [f'mod order {q}', f'mod params {q}']
+        elif nm == 0 or r < 0.12:
             ops.append('mod new'); nm += 1
         elif npar == 0 or r < 0.22:
             ops.append(f'mod param {rng.randint(1, 6)} {rng.randint(0, 1)}'); npar += 1
@@ -63,12 +102,10 @@ def gen_program(rng, nops):
             used[(m, name)] = f'p{k}'
             ops.append(f'mod regp {m} {name} {k}')
         elif r < 0.70:
-            ks = [rng.randrange(nm) for _ in range(rng.randint(0, 3))]
-            if rng.chance(0.5):
-                ops.append(f'mod seq {show_ints(ks)}')
-            else:
-                names = rng.sample(['l0', 'l1', 'l2', 'a', 'b'], len(ks))
-                ops.append('mod seqd ' + (','.join(f'{n}:{k}' for n, k in zip(names, ks)) if ks else '_'))
+            ks = [rng.randrange(nm) for _ in range(seq_len(rng, tier))]
+            line, names = seq_line(rng, ks, rng.chance(0.5))
+            ops.append(line)
+            seqs[nm] = names
             ops.append(f'mod order {nm}')
             nm += 1
         else:
@@ -81,9 +118,11 @@ def gen_program(rng, nops):
         # observe after every op
         q = rng.randrange(nm)
         ops += [f'mod params {q}', f'mod num {q}']
+        if seqs and rng.chance(.3):          # containers are run again at any later point, not only when they are built
+            ops.append(f'mod order {rng.pick(sorted(seqs))}')
         if rng.chance(0.5):
             ops += ['mod flags', 'mod pflags', 'mod grads']
-    ops += [f'mod params {k}' for k in range(nm)] + ['mod flags', 'mod pflags', 'mod grads']
+    ops += [f'mod params {k}' for k in range(nm)] + [f'mod order {q}' for q in sorted(seqs)] + ['mod flags', 'mod pflags', 'mod grads']
     return ops, shared or reassigned
 
 
@@ -106,15 +145,92 @@ def gen_mode_program(rng):
     return ops, True
 
 
+def gen_seq_program(rng, tier):
+    """one container with many order-sensitive members (each base module carries its own parameter, so parameters() shows the order
+    too), run; then members replaced / removed / appended by assignment and by register_module, run again after every change; then
+    the container nested into a second many-member container"""
+    nb = rng.randint(2, 6)
+    ops = []
+    for b in range(nb):
+        ops += ['mod new', f'mod param {rng.randint(1, 4)} {rng.randint(0, 1)}', f'mod set {b} w p{b}']
+    N = rng.pick([9, 10, 11, 12, 13, 14, 20, 23] if tier == 'quick' else [10, 11, 12, 20, 21, 99, 100, 101, 102, 110, 111, 128])
+    ks = [rng.randrange(nb) for _ in range(N)]
+    for i in range(min(nb, N)): ks[rng.randrange(N)] = i
+    line, names = seq_line(rng, ks, rng.chance(.7))
+    q = nb
+    ops += [line, f'mod order {q}', f'mod params {q}', f'mod num {q}']
+    nm = nb + 1
+    for _ in range(rng.randint(2, 6)):
+        r = rng.random()
+        name = rng.pick(names) if r < .7 else rng.pick([str(len(names)), str(len(names) + 1), str(rng.randint(0, 2 * N)), 'tail'])
+        v = rng.random()
+        if v < .5: ops.append(f'mod set {q} {name} m{rng.randrange(nb)}')
+        elif v < .75: ops.append(f'mod regm {q} {name} {rng.randrange(nb)}')
+        elif v < .85: ops.append(f'mod set {q} {name} none')
+        else: ops.append(f'mod set {q} {name} other')
+        if name not in names: names.append(name)
+        ops += [f'mod order {q}', f'mod params {q}']
+        if rng.chance(.3): ops += [f'mod {rng.pick(["eval", "train", "zero", "freeze", "unfreeze"])} {q}', 'mod flags', 'mod pflags']
+    # nested: a second container over the first one and the base modules
+    M = rng.pick([3, 11, 12])
+    ks2 = [rng.pick([q] + list(range(nb))) for _ in range(M)]
+    ks2[rng.randrange(M)] = q
+    line2, _ = seq_line(rng, ks2, rng.chance(.7))
+    ops += [line2, f'mod order {nm}', f'mod params {nm}', f'mod num {nm}', f'mod order {q}']
+    return ops, True
+
+
+def gen_deep_program(rng):
+    """a chain root -> ... -> innermost (depth 3-5), every node holding a parameter; every ancestor is listed / counted / zeroed
+    once (whatever a module may remember from that must not survive a change further down); then an attribute of a NESTED node is
+    replaced (parameter or whole sub-chain), removed, or added, and every ancestor is asked again"""
+    d = rng.randint(3, 5)
+    ops, npar = [], 0
+    for m in range(d):
+        ops += ['mod new', f'mod param {rng.randint(1, 4)} {rng.randint(0, 1)}', f'mod set {m} w p{npar}']; npar += 1
+        if m: ops.append(f'mod set {m} {rng.pick(["sub", "a", "_fc"])} m{m - 1}')
+    nm = d
+    ask = lambda: [x for m in range(nm) for x in (f'mod params {m}', f'mod num {m}')]
+    for _ in range(rng.randint(2, 5)):
+        for m in rng.sample(range(nm), rng.randint(1, nm)):      # what the ancestors are asked before the change
+            ops.append(rng.pick([f'mod params {m}', f'mod num {m}', f'mod zero {m}', f'mod freeze {m}', f'mod unfreeze {m}', f'mod eval {m}']))
+        tgt = rng.randrange(0, max(1, d - 1))        # a node below the root
+        r = rng.random()
+        if r < .35:
+            ops += [f'mod param {rng.randint(1, 4)} 1', f'mod set {tgt} {rng.pick(["w", "w", "v"])} p{npar}']; npar += 1
+        elif r < .6:
+            ops += ['mod new', f'mod param {rng.randint(1, 4)} 1', f'mod set {nm} w p{npar}']; npar += 1
+            if tgt >= 1:       # a fresh sub-tree in place of the old one (ids: a child is older than its parent only for the original chain; the fresh module has no descendants)
+                ops.append(f'mod set {tgt} {rng.pick(["sub", "a", "_fc", "extra"])} m{nm}')
+            else:
+                ops.append(f'mod set {tgt} extra m{nm}')
+            nm += 1
+        elif r < .8:
+            ops.append(f'mod set {tgt} {rng.pick(["w", "sub", "a", "_fc", "v"])} {rng.pick(["none", "other"])}')
+        else:
+            ops.append(f'mod regp {tgt} {rng.pick(["w", "v", "sub"])} {rng.randrange(npar)}')
+        if rng.chance(.5):
+            p_ = rng.randrange(npar); ops.append(f'mod gset {p_} {rng.randint(1, 9)}')
+        top = rng.randrange(tgt, d)
+        ops += ask() + [f'mod {rng.pick(["zero", "freeze", "unfreeze", "train"])} {top}', 'mod flags', 'mod pflags', 'mod grads']
+    return ops, True
+
+
 def cases(rng, tier):
     out = []
     n = 150 if tier == 'quick' else 4000
     for i in range(n):
-        ops, nt = gen_program(rng, rng.randint(3, 25 if tier == 'quick' else 40))
+        ops, nt = gen_program(rng, rng.randint(3, 25 if tier == 'quick' else 40), tier)
         out.append({'lines': ops, 'nt': nt, 'desc': ' ; '.join(ops[:40])})
     for i in range(n // 3):
         ops, nt = gen_mode_program(rng)
         out.append({'lines': ops, 'nt': nt, 'desc': ' ; '.join(ops[:40])})
+    for i in range(24 if tier == 'quick' else 400):
+        ops, nt = gen_seq_program(rng, tier)
+        out.append({'lines': ops, 'nt': nt, 'family': 'many-members', 'desc': ' ; '.join(ops[:40])})
+    for i in range(30 if tier == 'quick' else 600):
+        ops, nt = gen_deep_program(rng)
+        out.append({'lines': ops, 'nt': nt, 'family': 'deep-chain', 'desc': ' ; '.join(ops[:40])})
     # corpus: minimal programs for each past defect
     corpus = [
         ['mod new', 'mod param 3 1', 'mod set 0 a p0', 'mod set 0 b p0', 'mod params 0', 'mod num 0'],
@@ -146,11 +262,28 @@ class World:
         self.nn = nn
         self.sg = sg
         self.mods, self.pars, self.log = [], [], []
+        self.depth, self.last_order = 0, None
         w = self
         class M(nn.Module):
+            """x -> x*a + b with a in {2, 1/2} and b = index + 1: no two different members commute"""
             def forward(self, x):
-                w.log.append(w.mods.index(self)); return x
-        self.M = M
+                k = w.index(self)
+                w.log.append((w.depth, k)); return x * w.coef(k)[0] + w.coef(k)[1]
+        class S(nn.Sequential):
+            def forward(self, x):
+                w.log.append((w.depth, w.index(self))); w.depth += 1
+                try:
+                    return super().forward(x)
+                finally:
+                    w.depth -= 1
+        self.M, self.S = M, S
+
+    def index(self, m):
+        return next(i for i, x in enumerate(self.mods) if x is m)
+
+    @staticmethod
+    def coef(k):
+        return (2.0 if k % 2 == 0 else 0.5), float(k + 1)
 
     def val(self, v):
         if v == 'none': return None
@@ -173,10 +306,10 @@ class World:
             self.mods[int(t[1])].register_parameter(t[2], self.pars[int(t[3])]); return 'ok'
         if t[0] == 'seq':
             ks = common.parse_ints(t[1])
-            self.mods.append(nn.Sequential(*[self.mods[k] for k in ks])); return f'm{len(self.mods) - 1}'
+            self.mods.append(self.S(*[self.mods[k] for k in ks])); return f'm{len(self.mods) - 1}'
         if t[0] == 'seqd':
             d = OrderedDict() if t[1] == '_' else OrderedDict((nk.split(':')[0], self.mods[int(nk.split(':')[1])]) for nk in t[1].split(','))
-            self.mods.append(nn.Sequential(d)); return f'm{len(self.mods) - 1}'
+            self.mods.append(self.S(d)); return f'm{len(self.mods) - 1}'
         if t[0] == 'gset':          # p.grad = Tensor(full(v)) through the public setter
             P = self.pars[int(t[1])]
             P.grad = self.sg.Tensor(np.full(P.shape, float(t[2]), dtype=P.data.dtype)); return 'ok'
@@ -198,30 +331,24 @@ class World:
         if t[0] == 'zero':
             m.zero_grad(); return 'ok'
         if t[0] == 'order':
-            self.log.clear()
-            x = self.sg.Tensor(np.zeros(1, dtype=np.float32))
-            y = m(x)
-            if y is not x: return 'not-composition'
-            # nested Sequentials log their own children too: keep only direct children
-            direct = [self.mods.index(s) for s in m.submodules()]
-            return show_ints(direct) if self._direct_order_ok(m) else 'wrong-order'
+            # the order in which forward CALLS the direct members (observed: every member logs itself with its nesting depth) and
+            # the value: the composition of the x*a+b steps in the order in which they were called
+            self.log.clear(); self.depth = 0
+            x0 = np.array([0.25, -1.0])
+            y = m(self.sg.Tensor(x0.copy()))
+            called = [k for d, k in self.log if d == 1]
+            ref = x0.copy()
+            for d, k in self.log:
+                if not isinstance(self.mods[k], self.S):
+                    ref = ref * self.coef(k)[0] + self.coef(k)[1]
+            self.last_order = (called, [self.index(s) for s in m.submodules()])
+            if y.data.shape != ref.shape or not np.allclose(np.asarray(y.data, dtype=np.float64), ref, rtol=1e-6, atol=0): return 'not-composition'
+            return show_ints(called)
         if t[0] == 'flags':
             return ','.join(str(int(x.training)) for x in self.mods) or '_'
         if t[0] == 'pflags':
             return ','.join(f'{int(p.requires_grad)}{int(p._grad is not None)}' for p in self.pars) or '_'
         return 'bad-op'
-
-    def _direct_order_ok(self, m):
-        """the forward pass visited the direct submodules in registration order (pre-order of the log)"""
-        def expand(mod):
-            out = []
-            for s in mod.submodules():
-                if isinstance(s, self.nn.Sequential):
-                    out += expand(s)
-                else:
-                    out.append(self.mods.index(s))
-            return out
-        return self.log == expand(m)
 
 
 def impl(c):
@@ -239,10 +366,23 @@ def nontrivial(c):
 
 def distribution(cases):
     d = {}
+    def inc(k): d[k] = d.get(k, 0) + 1
     for c in cases:
+        if c.get('family'): inc('family:' + c['family'])
+        seqs, mutated = set(), set()
+        nm = 0
         for l in c['lines']:
-            k = l.split(' ')[1]
-            d[k] = d.get(k, 0) + 1
+            t = l.split(' ')
+            inc(t[1])
+            if t[1] == 'new': nm += 1
+            if t[1] in ('seq', 'seqd'):
+                n = 0 if t[2] == '_' else len(t[2].split(','))
+                inc('container members: ' + ('0-3' if n <= 3 else '4-10' if n <= 10 else '11-14' if n <= 14 else '15-99' if n < 100 else '>=100'))
+                if t[1] == 'seqd' and n > 1 and all(nk.split(':')[0].isdigit() for nk in t[2].split(',')): inc('OrderedDict container with numeric keys only')
+                seqs.add(nm); nm += 1
+            if t[1] in ('set', 'regm', 'regp') and int(t[2]) in seqs:
+                mutated.add(int(t[2])); inc('container member (re)assigned: ' + ('numeric name' if t[3].isdigit() else 'other name') + ' via ' + t[1])
+            if t[1] == 'order' and int(t[2]) in mutated: inc('forward order observed after a member was (re)assigned')
     return d
 
 
@@ -250,23 +390,68 @@ def distribution(cases):
 def _reach(nn, m, seen_m, params):
     if id(m) in seen_m: return
     seen_m[id(m)] = m
-    for k, v in vars(m).items():
-        if k.startswith('_'): continue
+    for k, v in vars(m).items():       # every instance attribute, underscore-prefixed names included (the registries themselves are dicts, not modules)
         if isinstance(v, nn.Parameter):
             params[id(v)] = v
         elif isinstance(v, nn.Module):
             _reach(nn, v, seen_m, params)
 
 
+class Registry:
+    """registration order as the property states it, kept from the program text alone (no use of the implementation): per module the
+    names in the order of their registration; assignment drops the name's registration and registers anew (at the end);
+    register_module / register_parameter on a name of the same kind replaces the entry where it stands"""
+    def __init__(self):
+        self.subs, self.pars = [], []
+
+    def run(self, t):
+        if t[0] == 'new':
+            self.subs.append([]); self.pars.append([])
+        elif t[0] in ('seq', 'seqd'):
+            self.subs.append([]); self.pars.append([])
+            if t[1] != '_':
+                items = [(str(i), int(k)) for i, k in enumerate(t[1].split(','))] if t[0] == 'seq' else [(nk.split(':')[0], int(nk.split(':')[1])) for nk in t[1].split(',')]
+                for n, k in items: self.reg(self.subs, self.pars, len(self.subs) - 1, n, k)
+        elif t[0] == 'set':
+            m, n, v = int(t[1]), t[2], t[3]
+            self.subs[m] = [e for e in self.subs[m] if e[0] != n]; self.pars[m] = [e for e in self.pars[m] if e[0] != n]
+            if v[0] == 'm' and v[1:].isdigit(): self.subs[m].append((n, int(v[1:])))
+            elif v[0] == 'p' and v[1:].isdigit(): self.pars[m].append((n, int(v[1:])))
+        elif t[0] == 'regm': self.reg(self.subs, self.pars, int(t[1]), t[2], int(t[3]))
+        elif t[0] == 'regp': self.reg(self.pars, self.subs, int(t[1]), t[2], int(t[3]))
+
+    @staticmethod
+    def reg(into, other, m, n, k):
+        other[m] = [e for e in other[m] if e[0] != n]
+        into[m] = [(n, k) if e[0] == n else e for e in into[m]] if any(e[0] == n for e in into[m]) else into[m] + [(n, k)]
+
+    def params(self, m):
+        out = [k for _, k in self.pars[m]]
+        for _, s_ in self.subs[m]:
+            out += self.params(s_)
+        return list(dict.fromkeys(out))
+
+
 def oracle(c):
     w = World()
+    reg = Registry()
     for li, line in enumerate(c['lines']):
         r = outcome(lambda: w.run(line))
         t = line.split(' ')
         if r == 'rejected' and t[1] != 'unfreeze':
             return {'key': {'class': 'rejected', 'op': t[1]}, 'case': {'lines': c['lines'][:li + 1]}, 'what': f'{line} raised'}
-        if r in ('wrong-order', 'not-composition'):
-            return {'key': {'class': r}, 'case': {'lines': c['lines'][:li + 1]}, 'what': f'Sequential forward: {r}'}
+        reg.run(t[1:])
+        if r == 'not-composition':
+            return {'key': {'class': r}, 'case': {'lines': c['lines'][:li + 1]}, 'what': 'Sequential forward: the result is not the composition of the members in the order in which they were called'}
+        if t[1] == 'order':
+            called, listed = w.last_order
+            want = [k for _, k in reg.subs[int(t[2])]]
+            if called != want or listed != want:
+                return {'key': {'class': 'wrong-order'}, 'case': {'lines': c['lines'][:li + 1]},
+                        'what': f'Sequential m{t[2]}: forward called its members in the order {called}, submodules() lists {listed}, registration order is {want}'}
+        if t[1] == 'params' and r != show_ints(reg.params(int(t[2]))):
+            return {'key': {'class': 'params-order'}, 'case': {'lines': c['lines'][:li + 1]},
+                    'what': f'parameters() of m{t[2]} = [{r}], registration order (each once) is {reg.params(int(t[2]))}'}
         for mi, m in enumerate(w.mods):
             ps = m.parameters()
             seen_m, params = {}, {}
